@@ -81,7 +81,7 @@ append = Contract('C04', F, 'MailboxData.append',
                   params=dict(self=MBX, append_msg=D.AppendMsg, recent=BOOL),
                   calls=D.BASE_CALLS, atomic=atomic(['self']),
                   ensures=[('returned_msg_has_fresh_max_uid', _append_post)],
-                  raises_only=())
+                  raises_only=(), returns=Msg)
 
 delete = Contract('C04', F, 'MailboxData.delete',
                   params=dict(self=MBX, uids=ListS(INT)),
